@@ -90,7 +90,7 @@ func nativeReplay(prop, pkg string, runs []ReplayRun, file string) (map[string]s
 	defer os.Remove(ovFile)
 
 	env := append(goEnv(), "VERIF_REPLAY="+file)
-	out, err := runCmd(repoDir, env, "go", "test", "-tags", "verif", "-vet=off", "-count=1", "-timeout", "300s",
+	out, err := runCmd(repoDir, env, "go", "test", "-tags", "verif", "-vet=off", "-count=1", "-timeout", "90s",
 		"-overlay", ovFile, "-run", "^TestVerifReplay$", "-v", "./"+pkg)
 	res := map[string]string{}
 	for _, line := range strings.Split(out, "\n") {
@@ -103,6 +103,14 @@ func nativeReplay(prop, pkg string, runs []ReplayRun, file string) (map[string]s
 		}
 	}
 	_ = err
+	// a native run that hangs confirms a reported deadlock
+	if strings.Contains(out, "test timed out") || strings.Contains(out, "all goroutines are asleep") {
+		for _, r := range runs {
+			if _, ok := res[r.ID]; !ok && strings.HasPrefix(r.Msg, "deadlock") {
+				res[r.ID] = "CONFIRMED native run deadlocked (go test timed out)"
+			}
+		}
+	}
 	return res, out
 }
 
